@@ -41,6 +41,43 @@ func ftUnion(a, b ftState) ftState {
 func (sp *ftSpec) bitAtom(fn *FuncInfo, e ast.Expr) (setWhenTrue, ok bool) {
 	info := fn.Pkg.TypesInfo
 	e = ast.Unparen(e)
+	// a predicate function over its arguments: hasFlag(flags, flagCompress) with `return flags&flag == flag`
+	if c, isCall := e.(*ast.CallExpr); isCall && len(c.Args) > 0 {
+		if f := calleeOf(info, c); f != nil {
+			if h := sp.p.FuncOf(f); h != nil && h.Decl.Body != nil && len(h.Decl.Body.List) == 1 && h.Decl.Recv == nil {
+				if rs, isR := h.Decl.Body.List[0].(*ast.ReturnStmt); isR && len(rs.Results) == 1 {
+					hinfo := h.Pkg.TypesInfo
+					params := map[types.Object]ast.Expr{}
+					for i, a := range c.Args {
+						if po := paramObj(hinfo, h.Decl.Type, i); po != nil {
+							params[po] = a
+						}
+					}
+					var subst func(x ast.Expr) ast.Expr
+					subst = func(x ast.Expr) ast.Expr {
+						switch y := x.(type) {
+						case *ast.ParenExpr:
+							return subst(y.X)
+						case *ast.Ident:
+							if a, isP := params[hinfo.Uses[y]]; isP {
+								return a
+							}
+						case *ast.BinaryExpr:
+							return &ast.BinaryExpr{X: subst(y.X), Op: y.Op, Y: subst(y.Y), OpPos: y.OpPos}
+						case *ast.UnaryExpr:
+							return &ast.UnaryExpr{Op: y.Op, X: subst(y.X), OpPos: y.OpPos}
+						}
+						return x
+					}
+					if _, isB := ast.Unparen(rs.Results[0]).(*ast.BinaryExpr); isB {
+						if v, okV := sp.bitAtom(fn, subst(rs.Results[0])); okV {
+							return v, true
+						}
+					}
+				}
+			}
+		}
+	}
 	// one-line predicate method on the header: head.compressed()
 	if c, isCall := e.(*ast.CallExpr); isCall && len(c.Args) == 0 {
 		if f := calleeOf(info, c); f != nil {
